@@ -14,7 +14,8 @@ V ::= nil | (T)payload
 payload ::= -?digits | #bits | #re#im | "chars" | t | f | ~ | &id | & | [V,…] | {V,…}
 ```
 `~` is the nil pointer / map / chan / func / slice; `&id` a non-nil pointer / map / chan with that
-identity; `&` a non-nil func.
+identity; `&` a non-nil func. `@error` is the interface type `error` (a slot type, never a dynamic
+type); `(@Result){V,E}` is a `flyt.Result` used as a value: the struct `Result{value: V, err: E}`.
 -/
 open Lean Flyt Flyt.Value Flyt.Value.Spec
 
@@ -30,7 +31,20 @@ def namedTable : List (String × GoType) :=
    ("MyFloat32", .basic .float32), ("MyString", tString), ("MyBool", tBool),
    ("MyAnys", tAnys), ("MyInts", tInts), ("MyStrs", tStrings), ("MyMap", tMapSA),
    ("MyRec", tRec), ("MyNC", tNC), ("MyArr", .array 2 (.basic .int)), ("MyFunc", .func 0),
-   ("MyPtr", .ptr (.basic .int)), ("MyChan", .chan (.basic .int))]
+   ("MyPtr", .ptr (.basic .int)), ("MyChan", .chan (.basic .int)),
+   ("MyInt16", .basic .int16), ("MyInt32", .basic .int32), ("MyInt64", .basic .int64), ("MyUint", .basic .uint),
+   ("MyUint8", .basic .uint8), ("MyUint32", .basic .uint32), ("MyUint64", .basic .uint64), ("MyUintptr", .basic .uintptr),
+   ("MyComplex64", .basic .complex64), ("MyComplex128", .basic .complex128),
+   -- the interface type `error`, `flyt.Result` itself (`tError`, `tResult` of the model are these entries),
+   -- `errors.errorString` and three error types of the harness
+   ("error", .any), ("Result", GoType.ofFields [.any, tError]), ("ErrStr", GoType.ofFields [tString]),
+   ("MyErr", GoType.ofFields [.basic .int]), ("MyNCErr", GoType.ofFields [tStrings]), ("MyStrErr", tString),
+   -- `type MyRes flyt.Result`
+   ("MyRes", GoType.ofFields [.any, tError])]
+
+/-- the table's `error` / `Result` are the model's `tError` / `tResult` -/
+example : (namedTable.lookup "error").map (GoType.named "error") = some tError
+    ∧ (namedTable.lookup "Result").map (GoType.named "Result") = some tResult := by decide
 
 def basicTable : List (String × Basic) :=
   [("int", .int), ("int8", .int8), ("int16", .int16), ("int32", .int32), ("int64", .int64),
@@ -233,6 +247,8 @@ structure ScJ where
   dm : String
   ci : String
   cf : String
+  /-- the receiver is `flyt.NewErrorResult(this error)`; the value it holds — the scenario's `v` — is nil -/
+  recvErr : Option String := none
   deriving FromJson, ToJson
 
 structure FamJ where
@@ -246,6 +262,14 @@ structure FamJ where
   getOrMiss : String
   deriving FromJson, ToJson
 
+/-- one instantiation of `As[T]` / `MustAs[T]`: `t` is the type code of `T` -/
+structure GenJ where
+  t : String
+  as : String
+  ok : String
+  must : String
+  deriving FromJson, ToJson
+
 structure ObsJ where
   str : FamJ
   int : FamJ
@@ -253,6 +277,7 @@ structure ObsJ where
   bool : FamJ
   slice : FamJ
   map : FamJ
+  gen : Array GenJ
   toSlice : String
   eqSelf : String
   eqHead : String
@@ -331,6 +356,26 @@ def decFam {α} (cd : Codec α) (j : FamJ) : Except String (FamObs α) := do
   pure { as_, or_ := ← decRet cd j.or, must := ← decRet cd j.must, get := ← decRet cd j.get,
          getOr := ← decRet cd j.getOr, getMiss := ← decRet cd j.getMiss, getOrMiss := ← decRet cd j.getOrMiss }
 
+def valCodec : Codec GoVal := { enc := valCode, dec := parseValue }
+
+def encGen (t : GoType) (o : GenObs) : GenJ :=
+  { t := typeCode t
+    as := match o.1 with | .panic => "panic" | .ok (x, _) => valCode x
+    ok := match o.1 with | .panic => "-" | .ok (_, ok) => if ok then "t" else "f"
+    must := encRet valCodec o.2 }
+
+/-- the harness must have instantiated exactly the `T`s of the model's `genTargets`, in that order -/
+def decGens (js : List GenJ) : Except String (List GenObs) := do
+  if js.length != genTargets.length then throw s!"{js.length} generic instantiations, expected {genTargets.length}"
+  (genTargets.zip js).mapM fun (t, j) => do
+    if j.t != typeCode t then throw s!"generic instantiation {j.t}, expected {typeCode t}"
+    let as_ ← if j.as == "panic" then (if j.ok == "-" then pure Ret.panic else throw "panic with ok flag")
+      else do
+        let x ← parseValue j.as
+        let ok ← match j.ok with | "t" => pure true | "f" => pure false | o => throw s!"bad ok flag {o}"
+        pure (Ret.ok (x, ok))
+    pure (as_, ← decRet valCodec j.must)
+
 def eqResStr : EqRes → String
   | .eq => "eq" | .ne => "ne" | .panic => "panic"
 
@@ -340,12 +385,14 @@ def parseEqRes : String → Except String EqRes
 def encObs (o : Obs) : ObsJ :=
   { str := encFam strCodec o.str, int := encFam intCodec o.int, flt := encFam fltCodec o.flt,
     bool := encFam boolCodec o.bool, slice := encFam sliceCodec o.slice, map := encFam mapCodec o.map,
+    gen := ((genTargets.zip o.gen).map fun (t, g) => encGen t g).toArray,
     toSlice := encRet sliceCodec o.toSlice, eqSelf := eqResStr o.eqSelf,
     eqHead := match o.eqHead with | none => "-" | some r => eqResStr r }
 
 def decObs (j : ObsJ) : Except String Obs := do
   pure { str := ← decFam strCodec j.str, int := ← decFam intCodec j.int, flt := ← decFam fltCodec j.flt,
          bool := ← decFam boolCodec j.bool, slice := ← decFam sliceCodec j.slice, map := ← decFam mapCodec j.map,
+         gen := ← decGens j.gen.toList,
          toSlice := ← decRet sliceCodec j.toSlice, eqSelf := ← parseEqRes j.eqSelf,
          eqHead := ← (if j.eqHead == "-" then pure none else do pure (some (← parseEqRes j.eqHead))) }
 
@@ -359,6 +406,14 @@ def parseIntStr (s : String) : Except String Int :=
     the oracle `ci` is cross-checked against the exact two's-complement semantics. -/
 def scenarioOf (j : ScJ) : Except String Scenario := do
   let v ← parseValue j.v
+  match j.recvErr with
+  | none => pure ()
+  | some e =>
+    -- `NewErrorResult(err)` is `Result{err: err}` (result.go:23): its value is nil, whatever the error
+    let ev ← parseValue e
+    if ev == .nil then throw "recvErr: nil error"
+    if (GoVal.newErrorResult ev).wf != true then throw "recvErr: ill-formed error Result"
+    if v != .nil then throw "recvErr: an error Result holds no value, v must be nil"
   let d : Defaults :=
     { s := j.ds, i := ← parseIntStr j.di, f := ← parseNatStr j.df, b := j.db,
       sl := ← sliceCodec.dec j.dsl, m := ← mapCodec.dec j.dm }
@@ -375,7 +430,7 @@ def scenarioOf (j : ScJ) : Except String Scenario := do
 
 def partsJson (p : Parts) : Json :=
   Json.mkObj [("str", p.str), ("int", p.int), ("flt", p.flt), ("bool", p.bool), ("slice", p.slice),
-    ("map", p.map), ("toSlice", p.toSlice)]
+    ("map", p.map), ("gen", p.gen), ("toSlice", p.toSlice)]
 
 def handle (sc obs : Json) : Json :=
   match fromJson? (α := ScJ) sc, fromJson? (α := ObsJ) obs with
